@@ -2,7 +2,7 @@
    post-order list of the arrows, each spanning the first to the last token of its part (empty: the
    following token). *)
 From Coq Require Import List ZArith Bool Arith Lia.
-From TM Require Import Gram.PTables Gram.Run Gram.Events.
+From TM Require Import Lib.ListX Gram.PTables Gram.Run Gram.Events.
 Import ListNotations.
 Local Open Scope Z_scope.
 
@@ -55,14 +55,174 @@ Proof.
 Qed.
 
 (* ---------- spans ---------- *)
+Lemma last_app_ne {A} (a b : list A) d : b <> [] -> last (a ++ b) d = last b d.
+Proof.
+  intros Hb. induction a as [|x a IH]; simpl; [reflexivity|].
+  destruct (a ++ b) eqn:E; [destruct a; simpl in E; congruence|]. exact IH.
+Qed.
+
 Lemma span_app a b after :
   span_of (a ++ b) after =
     (fst (span_of a (fst (span_of b after))), match b with [] => snd (span_of a after) | _ => snd (span_of b after) end).
 Proof.
-  destruct a as [|[o e] a']; simpl.
-  - destruct b as [|[o' e'] b']; reflexivity.
-  - f_equal. destruct b as [|x b']; [rewrite app_nil_r; reflexivity|].
-    destruct a' as [|y a'']; simpl.
-    + destruct x. reflexivity.
-    + rewrite (last_app_cons). reflexivity.
+  destruct a as [|[o e] a'].
+  - simpl. destruct b as [|[o' e'] b']; reflexivity.
+  - destruct b as [|x b']; [rewrite app_nil_r; reflexivity|].
+    unfold span_of at 1. cbn [app]. cbn [span_of fst].
+    change ((o, e) :: a' ++ x :: b') with (((o, e) :: a') ++ x :: b').
+    rewrite last_app_ne by discriminate. destruct x. reflexivity.
+Qed.
+
+Lemma start_of_cons c rest after : start_of (c :: rest) after = fst (span_of (leaves c) (start_of rest after)).
+Proof. unfold start_of, forest_leaves. simpl. rewrite span_app. reflexivity. Qed.
+
+Lemma start_of_app a b after : start_of (a ++ b) after = start_of a (start_of b after).
+Proof. unfold start_of, forest_leaves. rewrite flat_map_app, span_app. reflexivity. Qed.
+
+Lemma forest_leaves_app a b : forest_leaves (a ++ b) = forest_leaves a ++ forest_leaves b.
+Proof. apply flat_map_app. Qed.
+
+(* the ranges the specification assigns to the children of a node *)
+Fixpoint spec_ranges (ch : list tree) (after : Z) : list range :=
+  match ch with [] => [] | c :: rest => span_of (leaves c) (start_of rest after) :: spec_ranges rest after end.
+
+Lemma spec_ranges_app P Q aft : spec_ranges (P ++ Q) aft = spec_ranges P (start_of Q aft) ++ spec_ranges Q aft.
+Proof. induction P as [|c P IH]; simpl; [reflexivity|]. rewrite IH, start_of_app. reflexivity. Qed.
+
+Lemma spec_ranges_length ch aft : length (spec_ranges ch aft) = length ch.
+Proof. induction ch; simpl; congruence. Qed.
+
+(* tokens are non-empty and do not overlap; the part ends before the token that follows it *)
+Fixpoint ordered (ls : list range) (after : Z) : Prop :=
+  match ls with
+  | [] => True
+  | r :: rest => fst r < snd r /\ snd r <= fst (span_of rest after) /\ ordered rest after
+  end.
+
+Lemma ordered_app a b after : ordered (a ++ b) after <-> ordered a (fst (span_of b after)) /\ ordered b after.
+Proof.
+  induction a as [|r a IH]; simpl; [tauto|]. rewrite IH, span_app. simpl. tauto.
+Qed.
+
+Lemma ordered_last_ge ls after : ordered ls after -> forall r rest, ls = r :: rest -> snd r <= snd (last ls (0, 0)).
+Proof.
+  induction ls as [|x ls IH]; intros Ho r rest E; [discriminate|]. injection E as <- <-.
+  destruct ls as [|y ls']; simpl; [lia|].
+  simpl in Ho. destruct Ho as (H1 & H2 & H3). destruct y as [yo ye]. simpl in H2.
+  specialize (IH H3 _ _ eq_refl). simpl in IH. simpl in H3. destruct H3 as (H4 & _). simpl in H4. lia.
+Qed.
+
+Lemma ordered_span_lt ls after : ordered ls after -> ls <> [] -> fst (span_of ls after) < snd (span_of ls after).
+Proof.
+  destruct ls as [|[o e] rest]; intros Ho Hne; [congruence|].
+  pose proof (ordered_last_ge _ _ Ho _ _ eq_refl) as H. destruct Ho as (H1 & _).
+  unfold span_of. cbn [fst snd] in *. unfold range in *. lia.
+Qed.
+
+Lemma is_empty_span ls after : ordered ls after -> is_empty (span_of ls after) = match ls with [] => true | _ => false end.
+Proof.
+  intros Ho. destruct ls as [|r rest].
+  - unfold is_empty. simpl. apply Z.eqb_refl.
+  - pose proof (ordered_span_lt _ _ Ho ltac:(discriminate)) as H. unfold is_empty. apply Z.eqb_neq. lia.
+Qed.
+
+Lemma ordered_forest_cons c rest after :
+  ordered (forest_leaves (c :: rest)) after -> ordered (leaves c) (start_of rest after) /\ ordered (forest_leaves rest) after.
+Proof. unfold forest_leaves. simpl. intros H. apply ordered_app in H. exact H. Qed.
+
+(* ---------- reportRange and fixTrailingWS on the specification's ranges ---------- *)
+Lemma trim_spec P aft : P <> [] -> ordered (forest_leaves P) aft ->
+  snd (hd rdummy (trim_trailing (rev (spec_ranges P aft)))) = snd (span_of (forest_leaves P) aft).
+Proof.
+  revert aft. induction P as [|c P IH] using rev_ind; intros aft Hne Ho; [congruence|].
+  rewrite spec_ranges_app, forest_leaves_app in *. simpl spec_ranges. rewrite rev_app_distr. simpl rev. simpl app.
+  apply ordered_app in Ho. destruct Ho as [HoP Hoc]. unfold forest_leaves in Hoc, HoP. simpl in Hoc, HoP.
+  rewrite app_nil_r in Hoc, HoP.
+  assert (Est : start_of [c] aft = fst (span_of (leaves c) aft)).
+  { unfold start_of, forest_leaves. simpl. rewrite app_nil_r. reflexivity. }
+  unfold start_of at 1. simpl forest_leaves. change (forest_leaves [c]) with (leaves c ++ []). rewrite app_nil_r.
+  rewrite span_app.
+  destruct P as [|p P'].
+  - simpl. destruct (leaves c); reflexivity.
+  - assert (Hrev : exists y ys, rev (spec_ranges (p :: P') (start_of [c] aft)) = y :: ys).
+    { destruct (rev (spec_ranges (p :: P') (start_of [c] aft))) eqn:E; [|eauto].
+      apply (f_equal (@length _)) in E. rewrite rev_length, spec_ranges_length in E. discriminate. }
+    destruct Hrev as (y & ys & Hrev). cbn [trim_trailing]. rewrite Hrev.
+    change (fst (span_of [] aft)) with aft. rewrite (is_empty_span _ _ Hoc).
+    destruct (leaves c) as [|l ls] eqn:El.
+    + rewrite <- Hrev. rewrite Est. change (fst (span_of [] aft)) with aft in *.
+      rewrite IH; [reflexivity|discriminate|exact HoP].
+    + simpl. reflexivity.
+Qed.
+
+Lemma report_range_strict P aft : P <> [] -> ordered (forest_leaves P) aft ->
+  report_range (spec_ranges P aft) = span_of (forest_leaves P) aft.
+Proof.
+  intros Hne Ho. unfold report_range. rewrite (trim_spec _ _ Hne Ho).
+  destruct P as [|c rest]; [congruence|]. simpl hd.
+  rewrite (surjective_pairing (span_of (forest_leaves (c :: rest)) aft)). f_equal.
+  symmetry. apply start_of_cons.
+Qed.
+
+Lemma lne_spec P : forall aft, ordered (forest_leaves P) aft ->
+  last_nonempty_end (rev (spec_ranges P aft)) =
+    match forest_leaves P with [] => None | _ => Some (snd (span_of (forest_leaves P) aft)) end.
+Proof.
+  induction P as [|c P IH] using rev_ind; intros aft Ho; [reflexivity|].
+  rewrite spec_ranges_app, forest_leaves_app in *. simpl spec_ranges. rewrite rev_app_distr. simpl rev. simpl app.
+  apply ordered_app in Ho. destruct Ho as [HoP Hoc]. unfold forest_leaves in Hoc, HoP. simpl in Hoc, HoP.
+  rewrite app_nil_r in Hoc, HoP.
+  assert (Est : start_of [c] aft = fst (span_of (leaves c) aft)).
+  { unfold start_of, forest_leaves. simpl. rewrite app_nil_r. reflexivity. }
+  unfold start_of at 1. simpl forest_leaves. change (forest_leaves [c]) with (leaves c ++ []). rewrite app_nil_r.
+  change (fst (span_of [] aft)) with aft. cbn [last_nonempty_end]. rewrite (is_empty_span _ _ Hoc).
+  destruct (leaves c) as [|l ls] eqn:El.
+  - rewrite Est. change (fst (span_of [] aft)) with aft in *. rewrite app_nil_r. apply IH. exact HoP.
+  - rewrite span_app. destruct (forest_leaves P ++ l :: ls) eqn:E; [destruct (forest_leaves P); discriminate|]. reflexivity.
+Qed.
+
+Lemma fix_trailing_strict P aft endoff : P <> [] -> ordered (forest_leaves P) aft ->
+  fix_trailing (spec_ranges P aft) (start_of P aft) endoff = snd (span_of (forest_leaves P) aft).
+Proof.
+  intros Hne Ho. unfold fix_trailing.
+  destruct (spec_ranges P aft) eqn:E.
+  - apply (f_equal (@length _)) in E. rewrite spec_ranges_length in E. destruct P; [congruence|discriminate].
+  - rewrite <- E. rewrite (lne_spec _ _ Ho). unfold start_of. destruct (forest_leaves P); reflexivity.
+Qed.
+
+Lemma nth_spec_ranges ch aft : forall e, (e < length ch)%nat ->
+  fst (nth e (spec_ranges ch aft) rdummy) = start_of (skipn e ch) aft.
+Proof.
+  induction ch as [|c rest IH]; intros e He; simpl in He; [lia|].
+  destruct e as [|e]; simpl.
+  - symmetry. apply start_of_cons.
+  - apply IH. lia.
+Qed.
+
+Lemma split3 {A} (l : list A) s e : (s <= e)%nat -> (e <= length l)%nat ->
+  l = firstn s l ++ firstn (e - s) (skipn s l) ++ skipn e l.
+Proof.
+  intros Hse Hel. rewrite <- (firstn_skipn s l) at 1. f_equal.
+  rewrite <- (firstn_skipn (e - s) (skipn s l)) at 1. f_equal.
+  rewrite ListX.skipn_skipn'. f_equal. lia.
+Qed.
+
+Lemma spec_ranges_segment ch aft s e : (s <= e)%nat -> (e <= length ch)%nat ->
+  firstn (e - s) (skipn s (spec_ranges ch aft)) =
+    spec_ranges (firstn (e - s) (skipn s ch)) (start_of (skipn e ch) aft).
+Proof.
+  intros Hse Hel. rewrite (split3 ch s e Hse Hel) at 1. rewrite !spec_ranges_app.
+  assert (L1 : length (spec_ranges (firstn s ch) (start_of (firstn (e - s) (skipn s ch) ++ skipn e ch) aft)) = s).
+  { rewrite spec_ranges_length, firstn_length. lia. }
+  rewrite skipn_app, L1, Nat.sub_diag. rewrite skipn_all2 by lia. simpl.
+  assert (L2 : length (spec_ranges (firstn (e - s) (skipn s ch)) (start_of (skipn e ch) aft)) = (e - s)%nat).
+  { rewrite spec_ranges_length, firstn_length, skipn_length. lia. }
+  rewrite firstn_app, L2, Nat.sub_diag. simpl. rewrite app_nil_r. rewrite firstn_all2 by lia. reflexivity.
+Qed.
+
+Lemma ordered_segment ch aft s e : (s <= e)%nat -> (e <= length ch)%nat -> ordered (forest_leaves ch) aft ->
+  ordered (forest_leaves (firstn (e - s) (skipn s ch))) (start_of (skipn e ch) aft).
+Proof.
+  intros Hse Hel Ho. rewrite (split3 ch s e Hse Hel) in Ho. rewrite !forest_leaves_app in Ho.
+  apply ordered_app in Ho. destruct Ho as [_ Ho]. apply ordered_app in Ho. destruct Ho as [Ho _]. exact Ho.
 Qed.
